@@ -257,7 +257,11 @@ def _apply_step(rng, srf, gen, dim, state):
         else:
             srf.generator.mode_no = int(rng.choice([8, 16, 24, 40]))
     elif op == "seed":
-        state["seed"] = int(rng.choice(SEEDS)) + int(rng.integers(0, 5))
+        if rng.random() < 0.5:
+            # re-seeding with a neighbouring value (relative change down to 2e-10 for large seeds)
+            state["seed"] = int(min(max(state["seed"] + int(rng.choice([-3, -1, 1, 2])), 0), 2**32 - 1))
+        else:
+            state["seed"] = int(rng.choice(SEEDS)) + int(rng.integers(0, 5))
         if rng.random() < 0.5:
             srf.generator.seed = state["seed"]
             op = "seed(setter)"
